@@ -57,6 +57,25 @@ def g(s):
     return x  # TP:g_last
 
 
+class K:
+    """A second function named `f` in this file (a method): a method tracepoint names a function NAME."""
+
+    def f(self, s):
+        x = 0  # TP:kf_first
+        for op in s:
+            if op[0] == 'call':
+                x += _target(op[1])(op[2])
+            elif op[0] == 'raise':
+                raise ValueError('boom')
+            else:
+                x += 1
+        return x  # TP:kf_last
+
+
+def kf(s):
+    return K().f(s)
+
+
 def gen(n):
     i = 0  # TP:gen_first
     while i < n:
@@ -116,7 +135,7 @@ def random_script(rng, depth=0, max_depth=3, max_len=3):
             ops.append(('cfg', rng.choice([0, 0, 1, 2, 5, 255])))
             continue
         if k in ('call', 'try'):
-            ops.append((k, rng.choice(['a.f', 'a.g', 'b.f', 'b.g', 'a.f']), random_script(rng, depth + 1, max_depth, max_len)))
+            ops.append((k, rng.choice(['a.f', 'a.g', 'b.f', 'b.g', 'a.f', 'a.kf']), random_script(rng, depth + 1, max_depth, max_len)))
         elif k == 'gen':
             ops.append(('gen', rng.randint(0, 2)))
         elif k == 'raise':
